@@ -221,12 +221,22 @@ def est_run_impl(case):
             allb = _sample_tensor(case, list(range(nout)), B)
             res["ell"] = dist.log_prob(allb).detach().T.tolist()
         elif kind == "is":
-            qth = _theta_tensor(case, "qtheta")
-            dist = _mkdist(case, qth)
-            dens = _mkdist(case, th)
-            params = [th, phi, qth]
+            # object identity between the two arguments is an input dimension:
+            #   "same"  - the very same distribution object is passed as proposal and as density
+            #   "equal" - two distinct objects built on the same parameter tensor
+            #   "diff"  - different parameters (own tensor qtheta)
+            alias = case.get("alias", "diff")
+            if alias == "diff":
+                qth = _theta_tensor(case, "qtheta")
+                dist = _mkdist(case, qth)
+                dens = _mkdist(case, th)
+                params = [th, phi, qth]
+            else:
+                assert case["qtheta"] == case["theta"]
+                dist = _mkdist(case, th)
+                dens = dist if alias == "same" else _mkdist(case, th)
+                assert (dens is dist) == (alias == "same")
             est = E.ImportanceSamplingEstimator(dist, f, M, dens, case["self_norm"], is_log=is_log)
-            res["qth"] = qth
         else:
             raise ValueError(kind)
         for tup in itertools.product(range(nout), repeat=M):
@@ -262,7 +272,8 @@ def est_terms(case, res):
         K = len(_flat(case["theta"][j]))
         vars_, dvars = _var_tables(case, "theta", j)
         fval, fders = _table_fr(case, "f", j)
-        ndir = K + 1 + (K if kind == "is" else 0)
+        shared = kind == "is" and case.get("alias", "diff") != "diff"  # proposal and density move together with theta
+        ndir = K + 1 + (K if kind == "is" and not shared else 0)
         if kind == "direct":
             cval, cders = _table_fr(case, "c", j)
             ell = [Fr(round(x * 1024), 1024) for x in res["ell"][j]]
@@ -285,7 +296,7 @@ def est_terms(case, res):
                 st.append(f"unbiased_okb {cq(TOL)} {cn(M)} (mkjoint {cllq(vars_)} {cllq(dv)}) "
                           f"(mkjoint {cllq(vars_)} {cllq(dv)}) (combine {clq(fval)} {clq(fd)}) {cld(impl)}")
             else:
-                dq = dqvars[d - K - 1] if d > K else _zero_like(dqvars[0])
+                dq = dqvars[d - K - 1] if d > K else (dqvars[d] if shared and d < K else _zero_like(dqvars[0]))
                 model = (f"importance_all {cn(M)} {cb(case['self_norm'])} {cllq(vars_)} {cllq(dv)} {cllq(qvars)} "
                          f"{cllq(dq)} {clq(fval)} {clq(fd)}")
                 mt.append(f"check_all {cq(TOL)} ({model}) {cld(impl)}")
@@ -537,7 +548,10 @@ def imh_run_impl(case):
     res = {"exc": None, "calls": 0}
     try:
         dist = _mkdist(case, th.detach())
-        dens = dist if case["same"] else _TabDensity(case)
+        if case["same"]:  # identical object, or an equal but distinct object
+            dens = dist if case.get("alias", "same") == "same" else _mkdist(case, th.detach())
+        else:
+            dens = _TabDensity(case)
         draws = [_sample_tensor(case, [o[0]], B) if len(set(o)) == 1 else
                  torch.cat([_sample_tensor(case, [o[j]], 1) for j in range(B)], 1) for o in case["draws"]]
         state = {"k": 0}
@@ -1040,7 +1054,8 @@ def gen_est(rng, kind=None, small=False):
             _gen_table(rng, case, "f", B, nout, K)
             _gen_table(rng, case, "c", B, nout, K)
         if kind == "is":
-            case["qtheta"] = _gen_theta(rng, dtype, B, n, V)
+            case["alias"] = rng.choice(["same", "same", "equal", "diff", "diff"])
+            case["qtheta"] = _gen_theta(rng, dtype, B, n, V) if case["alias"] == "diff" else case["theta"]
     elif kind == "enum":
         _gen_table(rng, case, "f", B, nout, K)
     elif kind in ("st", "relax"):
@@ -1055,7 +1070,8 @@ def gen_est(rng, kind=None, small=False):
             [[rng.randint(-8, 8) for _ in range(V)] for _ in range(B)]
     else:  # imh
         N = rng.randint(1, 6)
-        case.update(N=N, burn=rng.randint(0, N - 1), tries=rng.choice([1, 2, 3, 5]), same=rng.random() < 0.4)
+        case.update(N=N, burn=rng.randint(0, N - 1), tries=rng.choice([1, 2, 3, 5]), same=rng.random() < 0.4,
+                    alias=rng.choice(["same", "equal"]))
         _gen_table(rng, case, "f", B, nout, K, dep=False)
         case["w"] = [[rng.choice([0, 0, 1, 2, 3, 5, 8]) for _ in range(nout)] for _ in range(B)]
         for j in range(B):
@@ -1356,7 +1372,8 @@ def _exhaustive_est(tier):
                             _gen_table(rng, c, "f", B, nout, K)
                             _gen_table(rng, c, "c", B, nout, K)
                         if kind == "is":
-                            c["qtheta"] = _gen_theta(rng, dtype, B, n, V)
+                            c["alias"] = ("same", "diff", "equal")[len(cases) % 3]
+                            c["qtheta"] = _gen_theta(rng, dtype, B, n, V) if c["alias"] == "diff" else c["theta"]
                         cases.append(c)
     return cases
 
@@ -1459,7 +1476,7 @@ def run(chk, cases=None):
         evs.append(ev)
         chk.note_case(c, nontrivial(c), stream)
         chk.count(_key(c))
-        for opt in ("param", "M", "B", "is_log", "cv", "self_norm", "same"):
+        for opt in ("param", "M", "B", "is_log", "cv", "self_norm", "same", "alias"):
             if opt in c:
                 chk.count(f"{opt}={c[opt]}")
         if c["fam"] == "est" and c["kind"] == "imh":
